@@ -93,7 +93,8 @@ class SyncMap:
             fn = node.name
         if isinstance(node, ast.Attribute):
             rw = 'wr' if isinstance(node.ctx, ast.Store) else 'rd'
-            if node.attr in FLAGS and isinstance(node.value, ast.Attribute) and node.value.attr == 'state':
+            if node.attr in FLAGS and ((isinstance(node.value, ast.Attribute) and node.value.attr == 'state')
+                                       or (isinstance(node.value, ast.Name) and node.value.id == 'state')):
                 self._add(name, node.lineno, '%s:%s' % (rw, node.attr), fn)
             elif _is_self_attr(node, '_sock'):
                 par = getattr(node, '_parent', None)
@@ -384,7 +385,15 @@ class LockProxy:
         self.sched.lock_release(self)
         return False
 
-    def acquire(self, *a, **k):
+    def acquire(self, blocking=True, timeout=-1):
+        if not blocking:
+            tid = self.sched.step('tryacq')
+            if self.owner is not None:
+                return False
+            self.owner = tid if tid is not None else 'main'
+            if tid is not None:
+                self.sched._log(tid, 'acq')
+            return True
         self.sched.lock_acquire(self)
         return True
 
@@ -600,7 +609,7 @@ class ParkingSelector:
 # one run
 
 APP_CALLS = ('st1', 'st0', 'sb1', 'sb0', 'pi', 'po', 'cl')
-LOOP_CALLS = ('rp', 'rc', 'tk', 'rm', 'rm2', 'cn')
+LOOP_CALLS = ('rp', 'rc', 'tk', 'rm', 'rm2', 'cn', 'ab')
 
 
 def parse_call(tok):
@@ -610,7 +619,7 @@ def parse_call(tok):
                     rm2=<hex> (the same in two fragments: Text FIN=0 RSV1=1, Continuation FIN=1)
                     cn (first call only): the case starts BEFORE the event loop is first advanced; the loop thread connects,
                        writes the request and reads the reply under the scheduler, racing with the application threads"""
-    if tok in ('tk', 'cn'):
+    if tok in ('tk', 'cn', 'ab'):
         return (tok,)
     h, a = tok.split('=', 1)
     if h in ('cl', 'rc'):
@@ -650,6 +659,7 @@ class Run:
         self.pre = False              # the case starts BEFORE the connection exists (loop program starts with `cn`)
         self.request = []             # pre: the chunks of the HTTP request
         self.pre_waited = False
+        self.abandon = False          # loop program `ab`: the consumer walks away - the loop thread closes the event generator
 
     def nchunks(self, tid, call):
         return max(1, int(self.n_of.get((tid, call), self.n_default)))
@@ -704,7 +714,11 @@ def run_real(case):
     for tid in loop_tids:
         for tok in progs[tid]:
             c = parse_call(tok)
-            if c[0] == 'cn':
+            if c[0] == 'ab':
+                if progs[tid] != ['ab']:
+                    raise ValueError('ab is a loop program of its own')
+                run.abandon = True
+            elif c[0] == 'cn':
                 run.pre = True
             elif c[0] == 'rp':
                 run.env.append(('recv', server_frame(9, c[1])))
@@ -832,6 +846,10 @@ def run_real(case):
 
         def loop_body(tid):
             def body():
+                if run.abandon:
+                    gen.close()         # GeneratorExit at the yield the generator is suspended at: the library's cleanup runs here
+                    run.loop_events.append(['abandoned'])
+                    return
                 for ev in gen:
                     if run.loop_events:
                         run.loop_events[-1].append(ev.name)
@@ -842,7 +860,7 @@ def run_real(case):
         fns, starters = [], []
         for tid, p in enumerate(progs):
             if tid in loop_tids:
-                fns.append(loop_body(tid)); starters.append(run.pre)
+                fns.append(loop_body(tid)); starters.append(run.pre or run.abandon)
             else:
                 fns.append(app_body(tid, p)); starters.append(True)
         threads = sched.run(fns, starters)
